@@ -19,7 +19,7 @@ def module_pattern(e, mod: str, name: str):
                 isinstance(t, ast.Name) and t.id == name
                 for t in st.targets) and isinstance(st.value, ast.Call) \
                 and ast.unparse(st.value.func) == 're.compile' and \
-                st.value.args and isinstance(st.value.args[0], ast.Constant):
+                st.value.args and _fold_text(m, st.value.args[0]) is not None:
             flags = 0
             fl = list(st.value.args[1:]) + [k.value
                                             for k in st.value.keywords]
@@ -27,7 +27,27 @@ def module_pattern(e, mod: str, name: str):
                 for x in ast.walk(f):
                     if isinstance(x, ast.Attribute) and hasattr(re, x.attr):
                         flags |= int(getattr(re, x.attr))
-            return st.value.args[0].value, flags, st
+            return _fold_text(m, st.value.args[0]), flags, st
+    return None
+
+
+def _fold_text(m, x, depth=0):
+    """the bytes / str a pattern expression denotes: a literal, a
+    module-level name bound once to one, or a concatenation of those"""
+    if depth > 4:
+        return None
+    if isinstance(x, ast.Constant):
+        return x.value if isinstance(x.value, (bytes, str)) else None
+    if isinstance(x, ast.Name):
+        ds = [st.value for st in m.tree.body if isinstance(st, ast.Assign)
+              and any(isinstance(t, ast.Name) and t.id == x.id
+                      for t in st.targets)]
+        return _fold_text(m, ds[0], depth + 1) if len(ds) == 1 else None
+    if isinstance(x, ast.BinOp) and isinstance(x.op, ast.Add):
+        a = _fold_text(m, x.left, depth + 1)
+        b = _fold_text(m, x.right, depth + 1)
+        if a is not None and b is not None and type(a) is type(b):
+            return a + b
     return None
 
 
